@@ -91,7 +91,7 @@ AckUseful == /\ Ackable # {}
                    Ack(p.src, p, WrittenCode(p), "none", "none", k, "ok", s)
 
 (* a perfectly relayable message (verified height, genuine proof) in which exactly one packet field is altered *)
-ForgeAlts == Alts \cap {"amt", "sender", "seq"}
+ForgeAlts == Alts \cap {"amt", "sender", "seq", "feeopt"}
 RecvForged == /\ Receivable # {} /\ ForgeAlts # {}
               /\ \E p \in {Pick(Receivable)} : \E k \in {Pick(GoodRecvHeights(p))} : \E alt \in {Pick(ForgeAlts)} :
                     Recv(p.dst, p, alt, k, "ok", "relayer")
